@@ -229,11 +229,11 @@ inductive ScopeArg where
 deriving Repr, Inhabited
 
 /-- MODULE_RE on one scope component (dotted identifiers) -/
-def isModuleName (s : String) : Bool := isSelector (s.splitOn ".")
+def isModuleName (s : String) : Bool := isSelector (splitChar s '.')
 
 /-- the scope a `config_scope(arg)` block runs under, or `none` when it raises `ValueError` -/
 def enterScope (cur : Scope) : ScopeArg → Option Scope
-  | .name s => let new := cur ++ s.splitOn "/"; if new.all isModuleName then some new else none
+  | .name s => let new := cur ++ splitChar s '/'; if new.all isModuleName then some new else none
   | .listArg l => if l.all isModuleName then some l else none
   | .clear => some []
   | .invalid => none
